@@ -97,7 +97,8 @@ def run(ctx, model):
     if fld is None:
         ctx.violation("R-FLAGSRC", isrep.relpath, isrep.short, "return", "_is_repeatable does not return the flag field",
                       isrep.node.lineno)
-        fld = "_Pregex__repeatable"
+        from ..absdom import F
+        fld = F(model).repeatable
     writes = []
     for fn in model.all_functions():
         clsname = fn.cls.name if fn.cls else None
@@ -113,10 +114,20 @@ def run(ctx, model):
             st = model.parents.get(node)
             while st is not None and not isinstance(st, ast.stmt):
                 st = model.parents.get(st)
+            cname = model.method(PRE, "Pregex", "__infer_type").node.name
+            is_cls_call = lambda v: isinstance(v, ast.Call) and ast.unparse(v.func).endswith(cname)
             if isinstance(st, ast.Assign) and isinstance(st.targets[0], ast.Tuple) and len(st.targets[0].elts) == 2 \
-                    and st.targets[0].elts[1] is node and isinstance(st.value, ast.Call) \
-                    and ast.unparse(st.value.func).endswith(model.method(PRE, "Pregex", "__infer_type").node.name):
-                ok = True
+                    and st.targets[0].elts[1] is node:
+                if is_cls_call(st.value):
+                    ok = True
+                elif isinstance(st.value, ast.Tuple) and len(st.value.elts) == 2:
+                    # `r = classify(text); self.t, self.flag = r.type, r.repeatable` (or r[0], r[1])
+                    src = st.value.elts[1]
+                    base = src.value if isinstance(src, (ast.Attribute, ast.Subscript)) else None
+                    if isinstance(base, ast.Name):
+                        binds = [a.value for a in ast.walk(init.node) if isinstance(a, ast.Assign) and
+                                 any(isinstance(t, ast.Name) and t.id == base.id for t in a.targets)]
+                        ok = len(binds) == 1 and is_cls_call(binds[0])
         if not ok:
             ctx.violation("R-FLAGSRC", fn.relpath, fn.short, norm_text(model.parents.get(node)),
                           "the repeatable flag is written outside `self.__type, self.__repeatable = __infer_type(...)`",
